@@ -157,7 +157,7 @@ def worker_part(ctx, res):
         exp = "inr " + cstr(err) if err else "inl " + clist(log, lambda p: f"({cN(p[0])}, sD {clist(p[1], sc.c_ds)})")
         terms.append(f"({reqt}, {clist(msgs, lambda m: '(' + cm(m) + ')')}, ({exp}))")
         metas.append(case)
-    results, logs = coq_results("C02", WHEADER, terms, "check_worker", shard=60, tag="worker")
+    results, logs = coq_results("C02", WHEADER, terms, "check_worker", shard=60, tag="worker", case_type="gmap task (gset ds) * list wmsg * (list (task * gset ds) + string)")
     res.corr_checked += len(results)
     for ok, meta in zip(results, metas):
         if ok is not True:
